@@ -1,6 +1,7 @@
 package sim
 
 import (
+	"time"
 	"context"
 	"encoding/json"
 	"errors"
@@ -32,6 +33,12 @@ var c15Reqs = []c15Req{
 	{"events-abstract", `subscription S { events(n:1) { id nodes(n:2) { id ... on A { aOnly } } u { ... on B { bOnly } } } }`, "S", "ok", "events", nil},
 	{"ticks", `subscription { ticks { s sNN i } }`, "", "ok", "ticks", nil},
 	{"alias", `subscription { e: events { id } }`, "", "ok", "e", nil},
+	// the root field comes from a fragment that is spread twice, the earlier
+	// spread being switched off (by a literal, by a variable), or from a later
+	// occurrence after a switched-off one
+	{"frag-twice-skip", `subscription { ...F @skip(if:true) ...F } fragment F on Subscription { events { id name } }`, "", "ok", "events", nil},
+	{"frag-twice-include-var", `subscription($on:Boolean!){ ...F @include(if:$on) ...F } fragment F on Subscription { events { id kind } }`, "", "ok", "events", map[string]interface{}{"on": false}},
+	{"inline-off-then-on", `subscription { ... @skip(if:true) { events { id } } ... on Subscription { events { name } } }`, "", "ok", "events", nil},
 	{"two-roots-directives", `subscription($s:Boolean!,$i:Boolean!){ ticks @skip(if:$s) @include(if:$i) { s } events { id name } }`, "", "ok", "events", map[string]interface{}{"s": false, "i": false}},
 	{"op-directive", `subscription S @live { events { id } }`, "S", "ok", "events", nil},
 	{"vars", `subscription($k:Kind, $st:Stamp, $n:Int){ events(k:$k, st:$st, n:$n) { id kind nodes(n:$n) { id } } }`, "", "ok", "events", map[string]interface{}{"k": "BETA", "st": "s1", "n": 1}},
@@ -67,6 +74,10 @@ type C15Scn struct {
 	// it when the context is cancelled (only in the both-ready mode: the
 	// forwarder's select between the source and Done is then two-ready)
 	SrcBuf int `json:"src_buf,omitempty"`
+	// NoCtx: the caller supplies no context at all (legal); the Subscribe
+	// resolver uses the context it is handed, as user code does. Run without
+	// the scheduler: the events are waiting in a closed stream.
+	NoCtx bool `json:"no_ctx,omitempty"`
 }
 
 type c15 struct{}
@@ -107,6 +118,14 @@ func (p c15) Gen(seed uint64, enum int, tier string) json.RawMessage {
 	}
 	r := NewRNG(seed)
 	s.Req = r.Intn(c15OKReqs)
+	if r.Chance(4) {
+		s.NoCtx = true
+		for n := r.Intn(4); n > 0; n-- {
+			s.Events = append(s.Events, []int{0, 0, 3}[r.Intn(3)])
+		}
+		s.Consumer, s.End = "prompt", "close"
+		return mustJSON(s)
+	}
 	if r.Chance(12) {
 		s.Req = c15OKReqs + r.Intn(len(c15Reqs)-c15OKReqs)
 	}
@@ -221,6 +240,9 @@ func (c15) Run(t TestingT, scn json.RawMessage, tape *Tape) *Outcome {
 	}
 	o := &Outcome{}
 	rq := c15Reqs[sc.Req]
+	if sc.NoCtx {
+		return c15RunNoCtx(&sc, rq)
+	}
 	faults := c15Faults(rq, sc.Events)
 
 	// reference: each event executed alone
@@ -560,6 +582,70 @@ func (c15) Run(t TestingT, scn json.RawMessage, tape *Tape) *Outcome {
 			if dec.Data != nil || len(dec.Errors) == 0 {
 				o.Violate("C15/failing-request-shape", "the single result of a failing request is not an error result: %s", outs["r0"])
 			}
+		}
+	}
+	return o
+}
+
+// c15RunNoCtx subscribes without a context. Nothing is scheduled: the events
+// are waiting in a closed stream, the consumer reads until the result channel
+// is closed, and every result must equal the execution of the selection with
+// that event as root value (also without a context).
+func c15RunNoCtx(sc *C15Scn, rq c15Req) *Outcome {
+	o := &Outcome{}
+	doc, err := parseDoc(rq.Query)
+	if err != nil {
+		return &Outcome{Infra: "c15: pool query does not parse"}
+	}
+	sw := NewWorld("A")
+	var solo []string
+	for i := range sc.Events {
+		solo = append(solo, MarshalResult(graphql.Execute(graphql.ExecuteParams{Schema: sw.Schema, Root: c15Payload(sc.Events, i), AST: doc, OperationName: rq.Op, Args: rq.Vars})))
+	}
+	w := NewWorld("A")
+	w.SubSource = func(p graphql.ResolveParams) (interface{}, error) {
+		// user code uses the context it is handed
+		if p.Context.Err() != nil {
+			return nil, p.Context.Err()
+		}
+		_ = p.Context.Value(reqKey{})
+		c := make(chan interface{}, len(sc.Events)+1)
+		for i := range sc.Events {
+			c <- c15Payload(sc.Events, i)
+		}
+		close(c)
+		return c, nil
+	}
+	ch := graphql.Subscribe(graphql.Params{Schema: w.Schema, RequestString: rq.Query, OperationName: rq.Op, VariableValues: rq.Vars})
+	var got []string
+	guard := time.After(20 * time.Second) // real time: nothing here waits for anything
+	closed := false
+	for !closed {
+		select {
+		case r, ok := <-ch:
+			if !ok {
+				closed = true
+			} else {
+				got = append(got, MarshalResult(r))
+			}
+		case <-guard:
+			o.Violate("C15/not-closed", "subscription without a context over a closed stream of %d events: the result channel was not closed after %d results", len(sc.Events), len(got))
+			closed = true
+		}
+	}
+	o.Fire("no-context", 1)
+	o.Steps = len(got)
+	o.Nontrivial = len(got) > 0
+	o.TraceHash = fmt.Sprintf("noctx-%d-%v", sc.Req, sc.Events)
+	o.Trace = got
+	o.Sample = map[string]interface{}{"scenario": sc, "results": got}
+	if len(got) != len(solo) {
+		o.Violate("C15/lost-event", "subscription without a context: %d source events, %d results: %v", len(solo), len(got), got)
+		return o
+	}
+	for i := range got {
+		if got[i] != solo[i] {
+			o.Violate("C15/wrong-result", "subscription without a context: result %d differs from executing the selection with event %d as root\n  got: %s\n want: %s", i, i, got[i], solo[i])
 		}
 	}
 	return o
